@@ -610,7 +610,8 @@ def find_case(draw, max_n=20):
         dists = [draw(st.integers(0, 30)) / 10.0 for _ in range(n)]
     else:
         dists = np.random.RandomState(draw(st.integers(0, 10 ** 6))).uniform(0, 3, size=n).tolist()
-    return {"labels": labels, "dists": dists, "ldtype": draw(st.sampled_from(["int64", "int64", "int32"])),
+    # labels are small numbers and often stored in a narrow integer type; frame indices are not small
+    return {"labels": labels, "dists": dists, "ldtype": draw(st.sampled_from(["int64", "int64", "int32", "int8", "uint8", "int16"])),
             "ddtype": draw(st.sampled_from(["float64", "float64", "float32"])),
             "mismatch": draw(st.sampled_from([False] * 14 + [True]))}
 
@@ -1102,6 +1103,6 @@ CLAUSES = [
     Clause("part_large", part_case(max_traj=25, max_len=40), run_part_index, quick=0, thorough=1500),
     Clause("frames_files", frames_files_case(), run_frames_files, quick=60, thorough=1600),
     Clause("find_centers", find_case(), run_find, quick=500, thorough=10000),
-    Clause("find_centers_large", find_case(max_n=300), run_find, quick=0, thorough=1500),
+    Clause("find_centers_large", find_case(max_n=300), run_find, quick=120, thorough=1500),
 ]
 MATCHERS = {"batch_equals_first_length": m_batch_equals_first_length}
